@@ -58,6 +58,7 @@ def search(npts: int, seed: int, rep: Report) -> List[Dict[str, Any]]:
     import lbfgsb
     rng = np.random.default_rng(seed)
     bad = []
+    bufs: Dict[Any, np.ndarray] = {}     # one preallocated point buffer per (function, n), refilled in place
     for name in NAMES:
         f, g = getattr(lbfgsb, name), getattr(lbfgsb, name + "_grad")
         worst = 0.0
@@ -74,6 +75,19 @@ def search(npts: int, seed: int, rep: Report) -> List[Dict[str, Any]]:
                 break
             if gx.shape != x.shape:
                 bad.append({"what": f"{name}_grad does not have the shape of x", "case": {"fn": name, "x": list(x)}})
+                break
+            # a function of x, not of the array object or of what was evaluated before: the caller refills ONE
+            # buffer in place (gradient first, then value, then again after an in-place perturbation and its undo)
+            b = bufs.setdefault((name, n), np.empty(n))
+            b[:] = x
+            gb, fb = np.asarray(g(b)).copy(), f(b)
+            b[0] += 1.0
+            f(b); g(b)
+            b[0] = x[0]
+            fb2, gb2 = f(b), np.asarray(g(b)).copy()
+            if fhex(float(fb)) != fhex(float(fx)) or fhex(float(fb2)) != fhex(float(fx)) or vhex(gb) != vhex(gx) or vhex(gb2) != vhex(gx):
+                bad.append({"what": f"{name} / {name}_grad is not a function of x: the value depends on the array object reused by the caller "
+                                    "or on earlier evaluations", "case": {"fn": name, "x": [float(v) for v in x]}})
                 break
             num = np.array([richardson(f, x, k) for k in range(n)])
             scale = max(1.0, float(np.max(np.abs(num))))
